@@ -814,6 +814,9 @@ func (p *parser) parseReturnStatement() Node {
 			ret.T = nil
 		} else {
 			ret.T = ret.Value.Type()
+			if ret.T == NONE_TYPE { // e.g. return (f) with a function f that returns nothing
+				p.appendErrorForToken("return value must have a value, found none", retValueToken)
+			}
 			p.assertEOL()
 		}
 	}
